@@ -1257,6 +1257,12 @@ def main(tier, replay=None):
         run.notes.append(run.proof_problem)
     rows_l = introspect.table(cheetah)
     tab = introspect.run_obligation(PID, rows_l)
+    # second tie (class table, clone methods): re-translated from REPO's source text (ast only), proved to meet table_ok, to agree row by row
+    # with the live-class table above and to equal the clone models of Ops/Clone.v (Gen/CloneGenEquiv.v)
+    import translate_stage_clone
+    trx = translate_stage_clone.translator_obligation_clone(run, live_rows=rows_l)
+    if trx["status"] != "ok":
+        run.notes.append("translator obligation (clone): " + json.dumps(translate_stage_clone.replay_fields_clone(trx))[:600])
     run.cov["obligations"] += 1
     run.cov["discharged"] += 1 if tab["ok"] else 0
     run.cov["class_table"] = {"classes": [r["cname"] for r in rows_l], "rejected": tab["rejected"], "offenders_present": tab["offenders_present"],
@@ -1345,6 +1351,8 @@ def main(tier, replay=None):
     elif failing:
         run.violation({"kind": "correspondence", "broken": "Coq model Ops/Clone.v (c15_check) disagrees with Element.clone on this element",
                        "element": cases[failing[0]]}, no_input=True)
+    elif trx["status"] != "ok":
+        run.violation(translate_stage_clone.replay_fields_clone(trx), no_input=True)
     elif not proof_ok:
         run.violation({"kind": "proof", "broken": run.proof_problem}, no_input=True)
     return run.finish("proof")
